@@ -6,7 +6,7 @@ Open Scope R_scope.
 (* fraction / percent -> physical, for each of the 19 material representations *)
 Lemma c_loading_factor_frac_from M rml rmg temp v op (mat : mrep) (r1 r2 : lrep) :
   0 < M -> 0 < rml -> 0 < rmg -> l_is_phys r1 = false -> l_is_phys r2 = true ->
-  c_loading RNum v (l_basis r1) (l_basis r2) (l_unit r1) (l_unit r2) (mkAds RNum op (Some M) (Some (rml * M)) (Some (rmg * M)) (Some rml) (Some rmg)) temp (m_basis mat) (m_unit mat)
+  c_loading RNum v (l_basis r1) (l_basis r2) (l_unit r1) (l_unit r2) (@ads_const RNum op (Some M) (Some (rml * M)) (Some (rmg * M)) (Some rml) (Some rmg)) temp (m_basis mat) (m_unit mat)
   = Ok (spec_conv (l_canon M rml rmg mat r1) (l_canon_phys M rml rmg r2) v).
 Proof.
   intros HM Hl Hg H1 H2. unfold spec_conv.
